@@ -142,6 +142,10 @@ def run(prop, tier, replay=None):
                 d = (st["h"] or 0) - a["resp"]["blk"][0]
             else:
                 d = 0
+                if k == "error":
+                    k = "error[%s]" % a["resp"].get("err", "?")[:28]
+                elif k == "notfound":
+                    k = "notfound[%s]" % a["resp"].get("style", "null")
             classes.add((ev, st["fin"], k, bucket(d, st["W"]) if ev == "H_Receipt" else None))
             eff["%s:%s" % (ev, k)] += 1
         elif ev == "Forward":
